@@ -316,6 +316,26 @@ def _impl(tier, seed, search):
                 L.fail(f'interp-vector:{c}', f'{c}.interp(vector of s) is not the sequence of single interpolations', dict(cls=c, s=svec))
         except Exception as e:
             L.fail(f'interp-vector-raises:{c}', f'{c}.interp(vector of s) raised {type(e).__name__}', dict(cls=c, s=svec))
+    # round 11: isunit of a multi-valued twist is the single-valued answer for each value, also for values a hair off unit norm
+    for nm_, cls_, vals_ in (('Twist3', _T3, [np.array([0.0, 0, 0, 0, 0, 1.0]) * (1 + 1e-6), np.array([0.6, 0, 0, 0, 0.8, 0.0]), np.array([0.6, 0, 0, 0, 0.8, 0.0]) * (1 - 3e-7), np.array([1.0, 2, 3, 0, 0, 1])]),
+                             ('Twist2', _T2, [np.array([0.0, 0.0, 1.0]) * (1 + 1e-6), np.array([0.6, 0.0, 0.8]), np.array([0.6, 0.0, 0.8]).astype(np.float32).astype(float), np.array([3.0, 1.0, 1.0])])):
+        inp_ = dict(cls=nm_, values=[list(v_) for v_ in vals_])
+        ok, r = L.noraise(f'{nm_}.isunit(multi)', lambda: ([bool(x_) for x_ in cls_(vals_).isunit], [bool(cls_(v_).isunit) for v_ in vals_]), inp_, f'{nm_}.isunit on a sequence', sig=f'isunit-multi:{nm_}:raises')
+        if ok: L.check(f'{nm_}.isunit(multi)', r[0] == r[1], inp_, f'{nm_}.isunit on a sequence differs from isunit of each value', observed=r[0])
+    # round 11: the twist predicates and exp with a unit on an object holding several twists: one answer per value, equal to the single-valued answer
+    for nm_, cls_, vals_ in (('Twist3', _T3, [np.array([0.0, 0, 0, 0, 0, 1.0]), np.array([1.0, 2, 3, 0, 0, 0]), np.array([1.0, -2, 0.5, 0.2, 0.3, -0.4])]),
+                             ('Twist2', _T2, [np.array([0.0, 0.0, 1.0]), np.array([1.0, 2.0, 0.0]), np.array([3.0, 1.0, -0.5])])):
+        inp_ = dict(cls=nm_, values=[list(v_) for v_ in vals_])
+        for pr_ in ('isprismatic', 'isrevolute'):
+            ok, r = L.noraise(f'{nm_}.{pr_}(multi)', lambda: ([bool(x_) for x_ in getattr(cls_(vals_), pr_)], [bool(getattr(cls_(v_), pr_)) for v_ in vals_]), inp_, f'{nm_}.{pr_} on a sequence',
+                              sig=f'per-value-raises:{nm_}.{pr_}:M')
+            if ok: L.check(f'{nm_}.{pr_}(multi)', r[0] == r[1], inp_, f'{nm_}.{pr_} on a sequence differs from the answer for each value', observed=r[0])
+        rev_ = [vals_[0], vals_[2]]
+        ok, r = L.noraise(f'{nm_}.exp(theta, deg)(multi)', lambda: ([np.asarray(x_.A, float) for x_ in cls_(rev_).exp(40.0, units='deg')], [np.asarray(cls_(v_).exp(40.0, units='deg').A, float) for v_ in rev_]),
+                          dict(cls=nm_, values=[list(v_) for v_ in rev_], theta_deg=40.0), f'{nm_}.exp(theta, units="deg") on a sequence', sig=f'per-value-raises:{nm_}.exp(deg):M')
+        if ok:
+            L.check(f'{nm_}.exp(theta, deg)(multi):len', len(r[0]) == len(r[1]), inp_, 'one pose per twist expected')
+            for A_, B_ in zip(*r): L.close(f'{nm_}.exp(theta, deg)(multi)', A_, B_, 1e-15, max(1.0, float(np.max(np.abs(B_)))), inp_, what='exp on a sequence of twists differs from exp of each twist', sig=f'{nm_}.exp(deg):M')
     res = L.result(); res['exhaustive'] = True
     return res
 
